@@ -54,7 +54,7 @@ class ValueIteration(Plans):
         policy_matrix = np.isclose(
             action_values,
             np.max(action_values, axis=-1, keepdims=True),
-        )
+        ) & mdp.action_matrix.astype(bool)
         policy_matrix = policy_matrix/policy_matrix.sum(-1, keepdims=True)
         single_action_states = mdp.action_matrix.sum(-1) == 1
         policy_matrix[single_action_states] = mdp.action_matrix[single_action_states]
